@@ -17,5 +17,8 @@ open Pcore.Files
 #print axioms C15_dependency_outcome
 #print axioms C15_found_iff_dependency
 #print axioms C15_absent_module
+#print axioms C15_error_no_binding
+#print axioms C15_error_state_global
+#print axioms C15_absent_stays_absent
 #print axioms C15_misnamed_no_line
 #print axioms C15_duplicate_redefine
